@@ -71,7 +71,26 @@ def sources(src: int, e0: int, e1: int, e2: int, e3: int, v0: int, v1: int, v2: 
                     if pos == cells[i]:
                         return vals[i]
                 return "unknown cell"
-            env.add_cell_component("c", gen)
+            source = gen
+            if hx.P.get('sized_callable'):
+                # a callable OBJECT that is also sized and indexable (an image-style raster whose raw rows run the other
+                # way): still a generator - what counts is what it returns when called with a cell's coordinates
+                class Raster:
+                    def __call__(self, pos, table):
+                        return gen(pos, table)
+
+                    def __len__(self):
+                        return n
+
+                    def __getitem__(self, i):
+                        if not 0 <= i < n:
+                            raise IndexError(i)
+                        return ("raw", n - 1 - i)
+
+                    def __iter__(self):
+                        return iter([("raw", n - 1 - i) for i in range(n)])
+                source = Raster()
+            env.add_cell_component("c", source)
             want = list(vals)
             # evaluated exactly once per cell, in id order, with that cell's coordinates and the cell table
             if [c[0] for c in calls] != cells or not all(list(c[1]['pos']) == cells for c in calls):
@@ -92,8 +111,9 @@ def sources(src: int, e0: int, e1: int, e2: int, e3: int, v0: int, v1: int, v2: 
                                       present="base" in env.cells))
         elif src == 3:                                  # the bundled constant generator; the constant may be a sequence
             hx.reach('constant')
-            ck = e0 % 4
-            const = vals[0] if ck == 0 else [vals[i] for i in range(n)] if ck == 1 else tuple(vals[i] for i in range(n)) if ck == 2 else (1, 2)
+            ck = e0 % 6                               # (incl. the falsy constants None and False: empty slots to be filled later)
+            const = vals[0] if ck == 0 else [vals[i] for i in range(n)] if ck == 1 else tuple(vals[i] for i in range(n)) if ck == 2 \
+                else (1, 2) if ck == 3 else None if ck == 4 else False
             env.add_cell_component("c", Env.ConstantGenerator(const))
             want = [const] * n
         elif src == 1:                                  # a list whose element kinds the solver chooses (mixed types!)
@@ -298,7 +318,7 @@ def obligations(tier):
     obs = [
         X("sources", sources, parts=[{"world": w, "src": sk} for w in worlds for sk in (0, 2, 3, 4)] +
           [{"world": w, "src": 1, "mut": mu} for w in worlds for mu in ((0, 2) if tier == "quick" else (0, 1, 2, 3))] +
-          [{"world": "line", "src": 1, "mut": 1, "alias": True}],
+          [{"world": "line", "src": 1, "mut": 1, "alias": True}] + [{"world": w, "src": 0, "sized_callable": True} for w in ("line", "grid")],
           labels=("callable", "list", "ndarray", "constant", "nested"), labels_for=lambda p: (("callable", "list", "ndarray", "constant", "nested")[p["src"]],),
           timeout=1200, encoded=enc),
         X("history", history, parts=[{"world": w, "k": k} for w in (("line", "grid") if tier == "quick" else worlds)
